@@ -834,7 +834,7 @@ class Shadow:
                     # parameters of the overridden method that the overriding one does not declare
                     for pln, pp in pe['ps'].items():
                         if pln not in x['ps']:
-                            x['ps'][pln] = dict(pp, inherited=True,
+                            x['ps'][pln] = dict(pp, inherited=True, via_override=True,
                                                 q={k2: dict(q, p=True, p_either=False)
                                                    for k2, q in pp['q'].items() if q['ts']})
                 r[kind][eln] = x
@@ -912,7 +912,10 @@ def check_full_class(run, sh, ln, real_cls, case, tokens, mof=False):
                     viol({'kind': 'parameter_set_differs', 'own': se['own']}, se['n'])
                 for pln, sp in se['ps'].items():
                     if pln in rps:
-                        cmp_quals(run, {'at': 'parameter-qualifier', 'inherited_method': sp['inherited']},
+                        # via_override: the parameter was copied into an OVERRIDING method from the overridden one (the
+                        # one place where _resolve_objects does resolve parameter qualifiers)
+                        cmp_quals(run, {'at': 'parameter-qualifier', 'inherited_method': sp['inherited'],
+                                        'via_override': bool(sp.get('via_override')) and se['own']},
                                   _wire_spec_q(sp['q'], tokens), rps[pln]['q'], case, viol)
         for eln in real:
             if eln not in spec[kind]:
